@@ -72,7 +72,7 @@ def make_replay(spec, contract, standalone=True):
 
 PER_UNIT_CAP = 2  # failures of one class recorded individually per work unit
 PER_CLASS_CAP = 40  # ... and per run; every failure is still counted in the notes
-NOISE_PREFIX = ("rank", "order:", "ctor:", "depth:", "threshold:", "rhs_", "expr:", "lhs:", "dim:", "batch:", "sub:", "sampled:", "sample_inputs:", "var:", "log_density:", "f:", "split:", "after:", "raised:")
+NOISE_PREFIX = ("rank", "order:", "ctor:", "depth:", "threshold:", "rhs_", "expr:", "lhs:", "dim:", "batch:", "sub:", "sampled:", "sample_inputs:", "var:", "log_density:", "f:", "split:", "after:", "raised:", "prev:")
 
 
 def failure_class(r):
